@@ -40,6 +40,8 @@ def domain(tier, seed):
             for us in uses:
                 cases.append(("grid", imps, us))
     cases += [("fixed", i, None) for i in range(len(FIXED))] + [("offset", 0, None)]
+    cases += [("relative", act, shadow) for act in ACTS for shadow in (False, True)]
+    cases += [("relative", act, "with-package-import") for act in ACTS]
     return cases
 
 
@@ -90,9 +92,61 @@ def _non_import_lines(src):
     return [l for l in src.split("\n") if l.strip() and not l.lstrip().startswith(("import ", "from "))]
 
 
+def _relative_case(act, shadow):
+    """A module INSIDE a package with explicit relative imports (`from .utils import helper`, `from .other import thing`), optionally with an unrelated
+    top-level module of the same name: every action must leave `python -m pkg.main` printing the same."""
+    import shutil
+    import subprocess
+    import sys
+    import tempfile
+    from rope.base.project import Project
+    from rope.refactor.importutils import ImportOrganizer
+    root = tempfile.mkdtemp(prefix="verif-c07r-")
+    try:
+        files = {"pkg/__init__.py": "", "pkg/utils.py": "def helper():\n    return 'pkg.utils'\n", "pkg/other.py": "thing = 'pkg.other'\n",
+                 "pkg/main.py": "from .utils import helper\nfrom .other import thing\n\nprint(helper(), thing)\n"}
+        if shadow == "with-package-import":
+            files["pkg/main.py"] = "from .utils import helper\nfrom .other import thing\nfrom . import other\n\nprint(helper(), thing, other.thing)\n"
+        elif shadow:
+            files["utils.py"] = "def helper():\n    return 'top-level utils'\n"
+        for path, src in files.items():
+            full = os.path.join(root, path)
+            os.makedirs(os.path.dirname(full), exist_ok=True)
+            with open(full, "w") as fh:
+                fh.write(src)
+
+        def run():
+            r = subprocess.run([sys.executable, "-B", "-m", "pkg.main"], cwd=root, capture_output=True, text=True, timeout=30)
+            return r.stdout + ("!rc=%d %s" % (r.returncode, (r.stderr.strip().splitlines() or [""])[-1]) if r.returncode else "")
+        want = run()
+        p = Project(root, ropefolder=None)
+        try:
+            try:
+                ch = getattr(ImportOrganizer(p), act)(p.get_resource("pkg/main.py"))
+            except Exception as e:
+                return {"status": "fail", "why": "%s raised %s on a package-internal module (%s)" % (act, type(e).__name__, shadow), "clause": "the action succeeds on a valid module",
+                        "observed": {"exception": type(e).__name__, "action": act}, "witness_case": [act, "relative", shadow]}
+            if ch is None:
+                return {"status": "ok", "nontrivial": False}
+            p.do(ch)
+        finally:
+            p.close()
+        got = run()
+        if got != want:
+            return {"status": "fail", "why": "%s on a package-internal module with relative imports%s: `python -m pkg.main` prints %r instead of %r"
+                    % (act, " (and a same-named top-level module)" if shadow else "", got, want),
+                    "clause": "every name used in the module still resolves to the same object", "observed": {"action": act, "shadow": shadow},
+                    "witness_case": [act, "relative", shadow]}
+        return {"status": "ok", "nontrivial": True}
+    finally:
+        shutil.rmtree(root, ignore_errors=True)
+
+
 def run_case(case):
     warnings.simplefilter("ignore")
     from rope.refactor.importutils import ImportOrganizer
+    if case[0] == "relative":
+        return _relative_case(case[1], case[2])
     p, f = _env()
     kind, a, b = case
     results = []
